@@ -62,6 +62,8 @@ POINTS = {
 REQUIRED_POINTS = list(POINTS)
 REQUIRED_CLAUSES = [history.CLAUSE, "season.longitude", "season.order-and-gaps",
                     "season.year-length", "season.refuses-other-years",
+                    "season.in-requested-year",
+                    "season.same-answer-when-asked-again",
                     "eot.range", "eot.daily-change", "sunrise.altitude",
                     "sunrise.order", "rts.altitude", "rts.transit",
                     "rts.none-iff-never-crosses"]
@@ -73,7 +75,8 @@ def shards(tier, seed):
     for i in range(16):
         out.append({"name": "seasons-%02d" % i, "part": "seasons",
                     "lo": -1000 + i * 251, "hi": min(3000, -1000 + (i + 1)
-                                                      * 251 - 1)})
+                                                      * 251 - 1),
+                    "n_mix": 40 if tier == "thorough" else 4, "idx": i})
     rng = random.Random(seed)
     if tier == "thorough":
         years = sorted(set([1582, 2000, -2000, 4000] + [
@@ -102,6 +105,55 @@ def wrap(d):
 
 
 # ------------------------------------------------------------------ seasons
+SEASON_2000 = (2451623.81, 2451716.57, 2451810.22, 2451900.06)
+
+
+def in_year(mon, y, k, s, jde):
+    """The instant belongs to the year that was asked for: within 5 days of
+    the season's date in 2000 moved by mean tropical years (the slow change
+    of the year's length and of the seasons' lengths shifts it by < 2 days
+    over -1000..3000)."""
+    want = SEASON_2000[k] + 365.2422 * (y - 2000)
+    mon.check("season.in-requested-year", abs(jde - want) <= 5.0,
+              {"year": y, "season": s, "jde": jde,
+               "expected_within_5d_of": want})
+
+
+def case_season_mix(mon, y, sv):
+    """Seasons asked for in a hostile order: the year, the years 1000 and
+    2000 away from it, neighbours, and the year again."""
+    from pymeeus.Sun import Sun
+    rng = random.Random(sv)
+    ys = [y] + [v for v in (y + 2000, y - 2000, y + 1000, y - 1000, y + 1,
+                            y + rng.randrange(-3000, 3000))
+                if -1000 <= v <= 3000]
+    rng.shuffle(ys)
+    ys = [y] + ys + [y]
+    first = {}
+    for v in ys:
+        for k, s in enumerate(SEASONS):
+            mon.evals += 1
+            try:
+                e = Sun.get_equinox_solstice(v, s)
+                lon = Sun.apparent_geocentric_position(e)[0]()
+            except Exception as ex:
+                mon.dev("season.longitude", {"year": v, "season": s,
+                                             "asked_in_order": ys,
+                                             "raised": repr(ex)})
+                continue
+            in_year(mon, v, k, s, e.jde())
+            mon.check("season.longitude", abs(wrap(lon - 90.0 * k)) <= 1e-5,
+                      {"year": v, "season": s, "jde": e.jde(),
+                       "sun_longitude": lon, "asked_in_order": ys})
+            if (v, k) in first:
+                mon.check("season.same-answer-when-asked-again",
+                          first[(v, k)] == e.jde(),
+                          {"year": v, "season": s, "first": first[(v, k)],
+                           "again": e.jde(), "asked_in_order": ys})
+            first[(v, k)] = e.jde()
+    mon.cls("season-hostile-order", ("mix", y, sv), ys)
+
+
 def case_seasons(mon, lo, hi):
     """Years lo..hi: the four instants of each year (event log) and the
     offline order / gap / year-length checks."""
@@ -123,6 +175,7 @@ def case_seasons(mon, lo, hi):
                 continue
             ts.append(e.jde())
             if y >= lo:
+                in_year(mon, y, k, s, e.jde())
                 err = abs(wrap(lon - 90.0 * k))
                 mon.stat("season_longitude_err_deg", err, [y, s])
                 mon.check("season.longitude", err <= 1e-5,
@@ -396,7 +449,8 @@ def case_rts(mon, lonw, lat, a2, d2, da, dd, h0, delta_t, theta0):
               dict(case, returned=list(res), hour_angle_at_transit=Ht))
 
 
-CASES = {"history": history.case, "seasons": case_seasons, "season_refusals": case_season_refusals,
+CASES = {"history": history.case, "season_mix": case_season_mix,
+         "seasons": case_seasons, "season_refusals": case_season_refusals,
          "eot_year": case_eot_year, "sunrise": case_sunrise, "rts": case_rts}
 
 
@@ -405,6 +459,12 @@ def run(mon, spec):
     if spec["part"] == "seasons":
         mon.begin("seasons", [spec["lo"], spec["hi"]])
         case_seasons(mon, spec["lo"], spec["hi"])
+        rng = random.Random(spec["seed"] * 1000003 + spec["idx"])
+        for _ in range(spec["n_mix"]):
+            y = rng.randrange(-1000, 3001)
+            sv = rng.randrange(1 << 30)
+            mon.begin("season_mix", [y, sv])
+            case_season_mix(mon, y, sv)
         if spec["lo"] == -1000:
             mon.begin("season_refusals", [])
             case_season_refusals(mon)
